@@ -20,6 +20,7 @@ META = {
     "assumptions": ["identity on the structured event array is the oracle (exact)", "region equality by behaviour: same cell index for probe points"],
     "deciding": ["roundtrip:ascii", "roundtrip:dict", "roundtrip:json", "roundtrip:dataframe"],
 }
+META["added"] = 'Added: with_datetime DataFrame route on non-chronological catalogs, catalog ids 0 and 1 always generated, exponent-notation field values (|v| < 1e-4, subnormals) also in first position, latitude-major regions.'
 MANIFEST = {
     "technique": "boundary recorder on the eight persistence functions with exact identity oracle on the structured event array; region equality by probe behaviour; generated hostile ids / millisecond phases / extreme coordinates",
     "level_text": "Each generated catalog is pushed through the four persistence routes with the real functions; the reloaded event array must be bit-identical (ids, integer ms origin times, doubles), integer catalog ids must survive every route and name/region the dict/JSON routes (region compared by the cell index of boundary-adjacent probe points).",
